@@ -158,7 +158,7 @@ func glue(dir string) (_ []Route, hasServer, stubErrors bool, _ error) {
 	fset := token.NewFileSet()
 	var routes []Route
 	hasNewServer, hasSec, hasUnimpl := false, false, false
-	var secMethods []string
+	var secMethods, secArgs []string
 	ents, _ := os.ReadDir(dir)
 	for _, e := range ents {
 		if !strings.HasSuffix(e.Name(), ".go") || strings.HasSuffix(e.Name(), "_test.go") {
@@ -220,6 +220,11 @@ func glue(dir string) (_ []Route, hasServer, stubErrors bool, _ error) {
 							}
 							sig := string(src[fset.Position(ft.Pos()).Offset:fset.Position(ft.End()).Offset])
 							secMethods = append(secMethods, m.Names[0].Name+strings.TrimPrefix(sig, "func"))
+							last := "nil"
+							if n := len(ft.Params.List); n > 0 && len(ft.Params.List[n-1].Names) > 0 {
+								last = ft.Params.List[n-1].Names[len(ft.Params.List[n-1].Names)-1].Name
+							}
+							secArgs = append(secArgs, last)
 						}
 					}
 				}
@@ -242,9 +247,9 @@ func glue(dir string) (_ []Route, hasServer, stubErrors bool, _ error) {
 	var sb strings.Builder
 	sb.WriteString("// Written by the verification framework's corpus driver; not generated by ogen.\n\npackage api\n\nimport (\n\t\"context\"\n\t\"net/http\"\n)\n\nvar _ context.Context\n\n")
 	if hasSec {
-		sb.WriteString("type simSec struct{}\n\n")
-		for _, m := range secMethods {
-			fmt.Fprintf(&sb, "func (simSec) %s {\n\treturn ctx, nil\n}\n\n", m)
+		sb.WriteString("// simSec accepts every credential and shows it to the harness.\ntype simSec struct{ saw func(ctx context.Context, cred any) }\n\n")
+		for i, m := range secMethods {
+			fmt.Fprintf(&sb, "func (s simSec) %s {\n\tif s.saw != nil {\n\t\ts.saw(ctx, %s)\n\t}\n\treturn ctx, nil\n}\n\n", m, secArgs[i])
 		}
 		sb.WriteString("// SimNewServer builds the server with the stub handler, an accept-all security handler and one middleware.\nfunc SimNewServer(eh func(context.Context, http.ResponseWriter, *http.Request, error), mw ...Middleware) (http.Handler, error) {\n\treturn NewServer(UnimplementedHandler{}, simSec{}, WithMiddleware(mw...), WithErrorHandler(eh))\n}\n")
 	} else {
